@@ -413,6 +413,14 @@ func (in *Interp) writeCell(c *Cell, v V) {
 // runs, to a cell that already existed when the harness started (package-level
 // state or something reachable from it): shared mutable state (C20).
 func (in *Interp) noteSharedWrite(c *Cell) {
+	top := c
+	for top.Parent != nil {
+		top = top.Parent
+	}
+	in.noteSharedWriteTag(top.Tag)
+}
+
+func (in *Interp) noteSharedWriteTag(tag string) {
 	fr := in.curFrame
 	if fr == nil || fr.fn.Pkg == nil {
 		return
@@ -425,11 +433,7 @@ func (in *Interp) noteSharedWrite(c *Cell) {
 	if len(name) > 5 && (name[:5] == "Verif" || name[:5] == "verif" || name[:2] == "vh") {
 		return // the harness itself
 	}
-	top := c
-	for top.Parent != nil {
-		top = top.Parent
-	}
-	in.SharedWrites = append(in.SharedWrites, fr.fn.String()+" writes "+top.Tag)
+	in.SharedWrites = append(in.SharedWrites, fr.fn.String()+" writes "+tag)
 }
 
 func (in *Interp) writeLeaf(c *Cell, v V) {
@@ -587,6 +591,10 @@ func (in *Interp) mapSet(m *MapObj, key, val V) {
 	}
 	if m == nil {
 		in.goPanicStr("assignment to entry in nil map")
+	}
+	if in.trailOn && m.ID <= in.baseCellID {
+		// a map that existed before the harness started (package-level state)
+		in.noteSharedWriteTag("package-level map")
 	}
 	pos := in.mapFind(m, key)
 	if pos >= 0 {
